@@ -321,10 +321,11 @@ func (hs *clientHandshakeState) handshake() error {
 		if _, err = c.flush(); err != nil {
 			return err
 		}
-		if err = hs.createNewSession(); err != nil {
+		if err = hs.readFinished(c.serverFinished[:]); err != nil {
 			return err
 		}
-		if err = hs.readFinished(c.serverFinished[:]); err != nil {
+		// 只有在验证了服务端的 Finished 之后才缓存新会话：以致命错误结束的握手所产生的会话不得再被提供
+		if err = hs.createNewSession(); err != nil {
 			return err
 		}
 	}
